@@ -61,8 +61,8 @@ Section ExperimentalHosts.
         destruct (web_host4_shape idna_raw H1 c (W_rep c W) (W_fail c W) Hpost Hpre t E2) as [S1 [S2 [S3 _]]].
         repeat split; try assumption. rewrite S2. apply orb_true_r.
       + cbn [orb] in H.
-        destruct (web_host6_val idna_raw H1 c (W_rep c W) (W_fail c W) Hpost Hpre t H) as [A B].
-        destruct (web_host6_shape idna_raw H1 c (W_rep c W) (W_fail c W) Hpost Hpre t H) as [S1 [S2 S3]].
+        destruct (web_host6_val idna_raw c Hpre t H) as [A B].
+        destruct (web_host6_shape t H) as [S1 [S2 S3]].
         repeat split; try assumption. rewrite S2. reflexivity.
   Qed.
 
